@@ -152,3 +152,41 @@ package engine
 //@ | alltype(searchPath), alltype(param), elemsof(string), maptype(map[string]struct{}), maptype(map[string]*runtime.Script), maptype(map[string]error)
 
 //@ framesweep[C16] loadWrites dfs EngineCallRefLinkAndCheck getParamRefScript (*searchPath).Push (*searchPath).Pop
+
+// ---- C20: script discovery --------------------------------------------------------------------
+//@ extern path/filepath.Ext
+//@ pure
+//@ extern path/filepath.Join
+//@ pure
+//@ extern path/filepath.Clean
+//@ pure
+//@ extern path/filepath.Split
+//@ pure
+//@ extern os.ReadDir
+//@ modifies nothing
+//@ ensures forall i int :: 0 <= i && i < len(result0) ==> result0[i] != nil
+//@ extern os.ReadFile
+//@ modifies nothing
+
+// a workspace file is read only when filepath.Ext of its name answered .ppl or .p (between two
+// reads there is such an answer), every file read is the directory joined with that name, a
+// read error aborts the discovery, and every script read is in the result under its name
+//@ func ReadPlScriptFromDir
+//@ props C20
+//@ ensures ncalls(os.ReadDir) == 1 && callarg(os.ReadDir, 0, 0) == callres(filepath.Clean, 0, 0) && callarg(filepath.Clean, 0, 0) == dirPath
+//@ ensures callres(os.ReadDir, 0, 1) != nil ==> result2 != nil && ncalls(ReadPlScriptFromFile) == 0
+//@ ensures ncalls(ReadPlScriptFromFile) == ncalls(filepath.Join) && (forall k mathint :: 0 <= k && k < ncalls(filepath.Join) ==> callarg(ReadPlScriptFromFile, k, 0) == callres(filepath.Join, k, 0))
+//@ ensures forall k mathint :: 0 <= k && k < ncalls(filepath.Join) ==> (exists e mathint :: 0 <= e && e < ncalls(filepath.Ext) && callseq(filepath.Ext, e) < callseq(filepath.Join, k) && (k == 0 || callseq(filepath.Ext, e) > callseq(filepath.Join, k - 1)) && (callres(filepath.Ext, e, 0) == ".ppl" || callres(filepath.Ext, e, 0) == ".p"))
+//@ ensures result2 == nil ==> (forall k mathint :: 0 <= k && k < ncalls(ReadPlScriptFromFile) ==> callres(ReadPlScriptFromFile, k, 2) == nil)
+//@ ensures ncalls(ReadPlScriptFromFile) >= 1 && callres(ReadPlScriptFromFile, ncalls(ReadPlScriptFromFile) - 1, 2) != nil ==> result2 != nil
+//@ ensures result2 == nil && ncalls(ReadPlScriptFromFile) >= 1 ==> dom(result0, callres(ReadPlScriptFromFile, ncalls(ReadPlScriptFromFile) - 1, 0)) && result0[callres(ReadPlScriptFromFile, ncalls(ReadPlScriptFromFile) - 1, 0)] == callres(ReadPlScriptFromFile, ncalls(ReadPlScriptFromFile) - 1, 1)
+//@ loop 1
+//@ invariant ret != nil && retPath != nil && ncalls(ReadPlScriptFromFile) == ncalls(filepath.Join)
+//@ invariant forall k mathint :: 0 <= k && k < ncalls(filepath.Join) ==> callarg(ReadPlScriptFromFile, k, 0) == callres(filepath.Join, k, 0) && callres(ReadPlScriptFromFile, k, 2) == nil
+//@ invariant forall k mathint :: 0 <= k && k < ncalls(filepath.Join) ==> (exists e mathint :: 0 <= e && e < ncalls(filepath.Ext) && callseq(filepath.Ext, e) < callseq(filepath.Join, k) && (k == 0 || callseq(filepath.Ext, e) > callseq(filepath.Join, k - 1)) && (callres(filepath.Ext, e, 0) == ".ppl" || callres(filepath.Ext, e, 0) == ".p"))
+//@ invariant ncalls(ReadPlScriptFromFile) >= 1 ==> dom(ret, callres(ReadPlScriptFromFile, ncalls(ReadPlScriptFromFile) - 1, 0)) && ret[callres(ReadPlScriptFromFile, ncalls(ReadPlScriptFromFile) - 1, 0)] == callres(ReadPlScriptFromFile, ncalls(ReadPlScriptFromFile) - 1, 1)
+
+//@ func ReadPlScriptFromFile
+//@ props C20
+//@ modifies nothing
+//@ ensures ncalls(os.ReadFile) == 1 && (callres(os.ReadFile, 0, 1) != nil <==> result2 != nil)
